@@ -221,6 +221,14 @@ def stageMid (r : Reg) (p : Pkt) : Option Lid :=
   | some mid => if utf8Valid mid then lookup mid r.byMid else none
   | none => none
 
+/-- the MID extension is present, valid UTF-8, and registered by nobody: since the `fix:` commit
+"drop an inbound RTP packet whose MID no receiver registered" the selection block returns at once
+(before it, the packet fell through to the SSRC / payload-type / provisional stages) -/
+def midMiss (r : Reg) (p : Pkt) : Bool :=
+  match extOf p r.midExt with
+  | some mid => utf8Valid mid && (lookup mid r.byMid).isNone
+  | none => false
+
 /-- the selection block of `receive`, in the code's order; the `Bool` is `bind_ssrc` -/
 def select (r : Reg) (p : Pkt) : Option (Lid × Via × Bool) :=
   match stageRid r p with
@@ -229,6 +237,8 @@ def select (r : Reg) (p : Pkt) : Option (Lid × Via × Bool) :=
     match stageMid r p with
     | some l => some (l, .mid, true)
     | none =>
+      if midMiss r p then none
+      else
       match lookup p.ssrc r.bySsrc with
       | some l => some (l, .ssrc, false)
       | none =>
